@@ -17,9 +17,20 @@ def triple(ap):
 
 
 def snap(obj):
-    """generic field snapshot of a small object (name-mangled attributes included)"""
-    d = getattr(obj, '__dict__', {})
-    return tuple(sorted((k, repr(v)) for k, v in d.items()))
+    """what a caller can observe of a pitch object: its public data attributes (properties included), repr and str.  Private fields are left out on
+    purpose: a correctly invalidated cache inside the object is not an alteration of the pitch; a stale one is caught by the re-spell histories."""
+    out = [('repr', repr(obj)), ('str', str(obj))]
+    for k in dir(obj):
+        if k.startswith('_'):
+            continue
+        try:
+            v = getattr(obj, k)
+        except Exception as e:  # noqa
+            v = 'raises ' + type(e).__name__
+        if callable(v):
+            continue
+        out.append((k, repr(v)))
+    return tuple(out)
 
 
 def imp(importer, s):
@@ -121,6 +132,16 @@ def _pair_job(job):
             elif j % 7 == 0 and exp(kp.HumdrumPitchExporter(), pi) != ('ok', TEXT[i]):
                 acc.violation(Viol('export-history', 'a-later-export-rewrites-a-pitch-exported-earlier', {'history': [TEXT[i], TEXT[j]]}, TEXT[i], None))
             acc.count('transitions', 2)
+            # the caller re-spells an object that has been exported before (public setters), then exports it again
+            try:
+                pj2 = mk(SPELL[j])
+                pi.name, pi.octave = pj2.name, pj2.octave
+                o3 = exp(kp.HumdrumPitchExporter(), pi)
+                acc.count('transitions')
+                if o3 != ('ok', TEXT[j]) and o == ('ok', TEXT[j]):
+                    acc.violation(Viol('export-history', 'export-after-the-caller-re-spelled-an-exported-pitch-is-stale', {'history': [TEXT[i], TEXT[j]], 'respell': True}, TEXT[j], o3))
+            except AttributeError:
+                acc.count('no_public_setters')
             if o != ('ok', TEXT[j]):
                 if exp(kp.HumdrumPitchExporter(), mk(SPELL[j])) == ('ok', TEXT[j]):
                     acc.violation(Viol('export-history', 'result-depends-on-previous-export', {'history': [TEXT[i], TEXT[j]]}, TEXT[j], o))
